@@ -108,31 +108,31 @@ backend_harnesses!(simd128, vcfg_simd128, memchr::arch::wasm32::simd128::memchr,
 
 #[cfg(vcfg_neon)]
 inst!(neon_one_find, [props=C01+C09 xprops=C05+C14 tier=quick cfg=neon t=1800 role=neon-find uw=verif_emul:17;find_raw.0:2;find_raw.1:4;byte_by_byte:17], 3,
-    neon::find::<35>(1, false, 0, 20));
+    neon::find::<32>(1, false, 0, 17));
 #[cfg(vcfg_neon)]
 inst!(neon_one_find_40, [props=C01+C09 xprops=C05+C14 tier=thorough cfg=neon t=5400 role=neon-find uw=verif_emul:17;find_raw.0:2;find_raw.1:4;byte_by_byte:17], 3,
     neon::find::<55>(1, false, 0, 40));
 #[cfg(vcfg_neon)]
 inst!(neon_one_rfind, [props=C02+C09 xprops=C05+C14 tier=quick cfg=neon t=1800 role=neon-rfind uw=verif_emul:17;rfind_raw.0:2;rfind_raw.1:4;byte_by_byte:17], 3,
-    neon::find::<35>(1, true, 0, 20));
+    neon::find::<32>(1, true, 0, 17));
 #[cfg(vcfg_neon)]
 inst!(neon_one_rfind_40, [props=C02+C09 xprops=C05+C14 tier=thorough cfg=neon t=5400 role=neon-rfind uw=verif_emul:17;rfind_raw.0:2;rfind_raw.1:4;byte_by_byte:17], 3,
     neon::find::<55>(1, true, 0, 40));
 #[cfg(vcfg_neon)]
 inst!(neon_two_find, [props=C01+C09 xprops=C05+C14 tier=thorough cfg=neon t=1800 role=neon-find uw=verif_emul:17;find_raw.0:2;find_raw.1:4;byte_by_byte:17], 3,
-    neon::find::<35>(2, false, 0, 20));
+    neon::find::<32>(2, false, 0, 17));
 #[cfg(vcfg_neon)]
 inst!(neon_two_rfind, [props=C02+C09 xprops=C05+C14 tier=thorough cfg=neon t=1800 role=neon-rfind uw=verif_emul:17;rfind_raw.0:2;rfind_raw.1:4;byte_by_byte:17], 3,
-    neon::find::<35>(2, true, 0, 20));
+    neon::find::<32>(2, true, 0, 17));
 #[cfg(vcfg_neon)]
 inst!(neon_three_find, [props=C01+C09 xprops=C05+C14 tier=thorough cfg=neon t=1800 role=neon-find uw=verif_emul:17;find_raw.0:2;find_raw.1:4;byte_by_byte:17], 3,
-    neon::find::<35>(3, false, 0, 20));
+    neon::find::<32>(3, false, 0, 17));
 #[cfg(vcfg_neon)]
 inst!(neon_three_find_40, [props=C01+C09 xprops=C05+C14 tier=thorough cfg=neon t=5400 role=neon-find uw=verif_emul:17;find_raw.0:2;find_raw.1:4;byte_by_byte:17], 3,
     neon::find::<55>(3, false, 0, 40));
 #[cfg(vcfg_neon)]
 inst!(neon_three_rfind, [props=C02+C09 xprops=C05+C14 tier=thorough cfg=neon t=1800 role=neon-rfind uw=verif_emul:17;rfind_raw.0:2;rfind_raw.1:4;byte_by_byte:17], 3,
-    neon::find::<35>(3, true, 0, 20));
+    neon::find::<32>(3, true, 0, 17));
 #[cfg(vcfg_neon)]
 inst!(neon_three_rfind_40, [props=C02+C09 xprops=C05+C14 tier=thorough cfg=neon t=5400 role=neon-rfind uw=verif_emul:17;rfind_raw.0:2;rfind_raw.1:4;byte_by_byte:17], 3,
     neon::find::<55>(3, true, 0, 40));
@@ -147,34 +147,34 @@ inst!(neon_packed_pre_n3, [props=C11+C09 xprops=C05+C14 tier=quick cfg=neon t=18
     neon::packed::<3, 34>(true));
 #[cfg(vcfg_neon)]
 inst!(neon_finder_n2, [props=C03+C09 xprops=C05+C14 tier=quick cfg=neon t=1800 role=neon-finder uw=verif_emul:17;find_in_chunk:18;is_equal_raw:3;packedpair::Finder:3;rabinkarp::Finder::find_raw:22;Hash:5;rabinkarp::Finder::new:5;with_ranker:5;oracle:4], 4,
-    neon::finder::<2, 20>(0, 20));
+    neon::finder::<2, 20>(0, 17));
 #[cfg(vcfg_simd128)]
 inst!(simd128_one_find, [props=C01+C09 xprops=C05+C14 tier=quick cfg=simd128 t=1800 role=simd128-find uw=verif_emul:17;find_raw.0:2;find_raw.1:4;byte_by_byte:17], 3,
-    simd128::find::<35>(1, false, 0, 20));
+    simd128::find::<32>(1, false, 0, 17));
 #[cfg(vcfg_simd128)]
 inst!(simd128_one_find_40, [props=C01+C09 xprops=C05+C14 tier=thorough cfg=simd128 t=5400 role=simd128-find uw=verif_emul:17;find_raw.0:2;find_raw.1:4;byte_by_byte:17], 3,
     simd128::find::<55>(1, false, 0, 40));
 #[cfg(vcfg_simd128)]
 inst!(simd128_one_rfind, [props=C02+C09 xprops=C05+C14 tier=quick cfg=simd128 t=1800 role=simd128-rfind uw=verif_emul:17;rfind_raw.0:2;rfind_raw.1:4;byte_by_byte:17], 3,
-    simd128::find::<35>(1, true, 0, 20));
+    simd128::find::<32>(1, true, 0, 17));
 #[cfg(vcfg_simd128)]
 inst!(simd128_one_rfind_40, [props=C02+C09 xprops=C05+C14 tier=thorough cfg=simd128 t=5400 role=simd128-rfind uw=verif_emul:17;rfind_raw.0:2;rfind_raw.1:4;byte_by_byte:17], 3,
     simd128::find::<55>(1, true, 0, 40));
 #[cfg(vcfg_simd128)]
 inst!(simd128_two_find, [props=C01+C09 xprops=C05+C14 tier=thorough cfg=simd128 t=1800 role=simd128-find uw=verif_emul:17;find_raw.0:2;find_raw.1:4;byte_by_byte:17], 3,
-    simd128::find::<35>(2, false, 0, 20));
+    simd128::find::<32>(2, false, 0, 17));
 #[cfg(vcfg_simd128)]
 inst!(simd128_two_rfind, [props=C02+C09 xprops=C05+C14 tier=thorough cfg=simd128 t=1800 role=simd128-rfind uw=verif_emul:17;rfind_raw.0:2;rfind_raw.1:4;byte_by_byte:17], 3,
-    simd128::find::<35>(2, true, 0, 20));
+    simd128::find::<32>(2, true, 0, 17));
 #[cfg(vcfg_simd128)]
 inst!(simd128_three_find, [props=C01+C09 xprops=C05+C14 tier=thorough cfg=simd128 t=1800 role=simd128-find uw=verif_emul:17;find_raw.0:2;find_raw.1:4;byte_by_byte:17], 3,
-    simd128::find::<35>(3, false, 0, 20));
+    simd128::find::<32>(3, false, 0, 17));
 #[cfg(vcfg_simd128)]
 inst!(simd128_three_find_40, [props=C01+C09 xprops=C05+C14 tier=thorough cfg=simd128 t=5400 role=simd128-find uw=verif_emul:17;find_raw.0:2;find_raw.1:4;byte_by_byte:17], 3,
     simd128::find::<55>(3, false, 0, 40));
 #[cfg(vcfg_simd128)]
 inst!(simd128_three_rfind, [props=C02+C09 xprops=C05+C14 tier=thorough cfg=simd128 t=1800 role=simd128-rfind uw=verif_emul:17;rfind_raw.0:2;rfind_raw.1:4;byte_by_byte:17], 3,
-    simd128::find::<35>(3, true, 0, 20));
+    simd128::find::<32>(3, true, 0, 17));
 #[cfg(vcfg_simd128)]
 inst!(simd128_three_rfind_40, [props=C02+C09 xprops=C05+C14 tier=thorough cfg=simd128 t=5400 role=simd128-rfind uw=verif_emul:17;rfind_raw.0:2;rfind_raw.1:4;byte_by_byte:17], 3,
     simd128::find::<55>(3, true, 0, 40));
@@ -189,7 +189,7 @@ inst!(simd128_packed_pre_n3, [props=C11+C09 xprops=C05+C14 tier=quick cfg=simd12
     simd128::packed::<3, 34>(true));
 #[cfg(vcfg_simd128)]
 inst!(simd128_finder_n2, [props=C03+C09 xprops=C05+C14 tier=quick cfg=simd128 t=1800 role=simd128-finder uw=verif_emul:17;find_in_chunk:18;is_equal_raw:3;packedpair::Finder:3;rabinkarp::Finder::find_raw:22;Hash:5;rabinkarp::Finder::new:5;with_ranker:5;oracle:4], 4,
-    simd128::finder::<2, 20>(0, 20));
+    simd128::finder::<2, 20>(0, 17));
 #[cfg(vcfg_neon)]
 inst!(neon_top_wiring_12, [props=C01+C02+C07+C09 xprops=C05+C14 tier=quick cfg=neon t=1800 role=neon-top-level-wiring uw=verif_emul:17;find_raw.0:2;find_raw.1:3;count_raw.0:2;count_raw.1:3;byte_by_byte:17;oracle::count:20], 3,
     neon::top_wiring::<12>());
